@@ -78,10 +78,11 @@ def compare(p, e, o) -> Optional[Dict[str, Any]]:
         return {"what": "tokens-length", "expected": e["out"], "observed": o["out"]}
     inst2real: Dict[str, str] = {}
     for a, b in zip(e["out"], o["out"]):
-        if a.startswith("cid="):
-            if not b.startswith("cid="):
+        if a.startswith("cid=") or a.startswith("me.id="):
+            pre = a[:a.index("=") + 1]
+            if not b.startswith(pre):
                 return {"what": "tokens", "expected": a, "observed": b}
-            k, rid = a[4:], b[4:]
+            k, rid = a[len(pre):], b[len(pre):]
             if inst2real.setdefault(k, rid) != rid:
                 return {"what": "Component.id-not-stable-for-instance", "instance": k}
         elif a != b:
